@@ -24,12 +24,24 @@ Clauses of the property and where they are:
   is a template that no solve advances, ensembles sharing it are independent
     ........................................................... `init_members_fresh`, `members_fresh_copies`,
                                                                 `template_untouched`, `ensembles_independent`
-Not modelled here (checked on the implementation by the monitor of harness/c09.py only): "total = number of REAL
-cost calls", the nested solvers themselves (C01-C05; an arbitrary `run` in the template theorems), that
-`copy.deepcopy` really returns an independent object (the harness compares object identities and the template's
-state with the model on every run), the map, `fillpts` (an optimisation run).
+* WHOLE ENSEMBLE RUNS, the members being closed loops of the solver model S (Model/EnsembleRun.lean): slot j holds the
+  run from starting point j, `_all_*` are the members' values in order, total evaluations = sum of the members'
+  evaluation-log lengths = calls of the user's cost, the reported best is one member's and the minimum, every member's
+  stop message is true of its own counters; lattice: prod(nbins) members started at the cell centres
+    ........................................................... `ensemble_members_in_order`, `ensemble_total_is_cost_calls`,
+                                                                `nm_ensemble_total_is_cost_calls`, `ensemble_best_is_min_member`,
+                                                                `ensemble_member_stops_truthfully`, `lattice_ensemble_members`
+* step-wise mode (`Step()` loops, `Solve(step=True)`): slots kept, finished members not advanced, equivalence with
+  run-to-completion for deterministic members ................. `ens_steps_keep_slots`, `finished_member_not_advanced`,
+                                                                `member_steps_eq_run`, `step_mode_eq_solve`
+Not modelled here (checked on the implementation by the monitor of harness/c09.py only): that `copy.deepcopy` really
+returns an independent object (the harness compares object identities and the template's state with the model on every
+run), the map (order-preserving in its result), `fillpts` (an optimisation run), Powell's `Finalize` in step-wise mode
+(excluded from `step_mode_eq_solve`), the re-decoration of a finished Nelder-Mead member's objective in step-wise mode
+(known finding F20e: the stored best vertex is clipped into the strict ranges).
 -/
 import MysticVerif.Proofs.Ensemble
+import MysticVerif.Proofs.EnsembleRun
 
 set_option linter.unusedSectionVars false
 set_option linter.unusedSimpArgs false
@@ -699,5 +711,372 @@ example :
     r1.2 = [1, 2] ∧ r2.2 = [3, 4, 5] ∧ r2.1.get 0 = 0 ∧ (r1.2 ++ r2.2).map r2.1.get = [10, 11, 20, 21, 22] := by decide
 
 end Template
+
+
+/-! ## whole ensemble runs: the members are closed loops of the solver model S (Model/EnsembleRun.lean)
+
+`nd : Nested P S X E` is ANY nested solver type (its algorithm started at a point, its fresh state, how the best is read
+off the state), `c0` the control state of a fresh copy of the configured nested solver (the ensemble's limits), `pts`
+the starting points, `fuel` the bound on `Step` calls per member.  Everything below holds for every number of members,
+all starting points, every termination condition and every limit setting. -/
+section Runs
+open MysticVerif.Solver MysticVerif.Closed
+variable {P S X E : Type}
+
+/-- **there are exactly as many members as starting points, slot `j` holds the run from starting point `j` with
+`id = j + at`, and `_all_bestEnergy`, `_all_bestSolution`, `_all_evals`, `_all_iters` are the members' own values in
+member order** (run-to-completion mode) -/
+theorem ensemble_members_in_order [LE E] [DecidableLE E] (nd : Nested P S X E) (fuel : Nat) (c0 : Ctl) (at_ : Nat)
+    (pts : List P) :
+    (ensembleSolve nd fuel c0 at_ pts).members.length = pts.length ∧
+    (∀ j, (ensembleSolve nd fuel c0 at_ pts).members[j]? =
+      pts[j]?.map fun p => memberOf nd (memberRun nd fuel c0 p).ctl (memberRun nd fuel c0 p).st (j + at_)) ∧
+    (ensembleSolve nd fuel c0 at_ pts).allE = pts.map (fun p => nd.bestE (memberRun nd fuel c0 p).st) ∧
+    (ensembleSolve nd fuel c0 at_ pts).allX = pts.map (fun p => nd.bestX (memberRun nd fuel c0 p).st) ∧
+    (ensembleSolve nd fuel c0 at_ pts).allEvals = pts.map (fun p => (memberRun nd fuel c0 p).ctl.evals) ∧
+    (ensembleSolve nd fuel c0 at_ pts).allIters = pts.map (fun p => (memberRun nd fuel c0 p).ctl.gens) := by
+  refine ⟨solveMembers_length nd fuel c0 at_ pts 0, ?_, ?_, ?_, ?_, ?_⟩
+  · intro j
+    have := solveMembers_get nd fuel c0 at_ pts 0 j
+    simpa [ensembleSolve, report] using this
+  · exact solveMembers_bestE nd fuel c0 at_ pts 0
+  · exact solveMembers_bestX nd fuel c0 at_ pts 0
+  · exact solveMembers_evals nd fuel c0 at_ pts 0
+  · exact solveMembers_gens nd fuel c0 at_ pts 0
+
+/-- **the total evaluation count is the number of calls made to the user's cost**: for every nested solver whose
+evaluation log only grows on the states a run reaches (`I`), `_total_evals` is the sum of the members'
+evaluation-log lengths and `_all_evals[j]` is the length of member `j`'s own log - each record of a log IS one call
+of the cost (`Obj.evalB`, C01/C04).  Holds wherever each member stops. -/
+theorem ensemble_total_is_cost_calls [LE E] [DecidableLE E] (nd : Nested P S X E) (fuel : Nat) (c0 : Ctl) (at_ : Nat)
+    (pts : List P) (I : P → S → Nat → Prop) (h0 : ∀ p, I p nd.init 0)
+    (hI : ∀ p s k, I p s k → I p ((nd.alg p).step s k) (k + 1))
+    (hmono : ∀ p s k, I p s k → (nd.alg p).nlog s ≤ (nd.alg p).nlog ((nd.alg p).step s k))
+    (hc : c0.evals = 0) (hl : ∀ p, (nd.alg p).nlog nd.init = 0) :
+    (ensembleSolve nd fuel c0 at_ pts).allEvals = pts.map (fun p => (nd.alg p).nlog (memberRun nd fuel c0 p).st) ∧
+    (ensembleSolve nd fuel c0 at_ pts).total = (pts.map (fun p => (nd.alg p).nlog (memberRun nd fuel c0 p).st)).sum := by
+  have hm : ∀ p, (memberRun nd fuel c0 p).ctl.evals = (nd.alg p).nlog (memberRun nd fuel c0 p).st := by
+    intro p
+    have := solve_evals_eq_log_inv (nd.alg p) (I p) (hI p) (hmono p) fuel c0 nd.init 0 0 (h0 p)
+    rw [hl p, hc] at this
+    simpa [memberRun] using this
+  have ha : (ensembleSolve nd fuel c0 at_ pts).allEvals = pts.map (fun p => (nd.alg p).nlog (memberRun nd fuel c0 p).st) := by
+    rw [(ensemble_members_in_order nd fuel c0 at_ pts).2.2.2.2.1]
+    exact List.map_congr_left fun p _ => hm p
+  refine ⟨ha, ?_⟩
+  have ht : (ensembleSolve nd fuel c0 at_ pts).total = ((ensembleSolve nd fuel c0 at_ pts).allEvals).foldl (· + ·) 0 := rfl
+  rw [ht, ha, foldl_add_start]
+  simp
+
+/-- **the reported best energy / solution are those of ONE member - the run from one of the starting points - and the
+energy is the minimum over all members** (every nested solver type, every termination) -/
+theorem ensemble_best_is_min_member [LinearOrder E] (nd : Nested P S X E) (fuel : Nat) (c0 : Ctl) (at_ : Nat)
+    (pts : List P) (hne : pts ≠ []) :
+    ∃ r j p, (ensembleSolve nd fuel c0 at_ pts).best = some r ∧ pts[j]? = some p ∧
+      r = memberOf nd (memberRun nd fuel c0 p).ctl (memberRun nd fuel c0 p).st (j + at_) ∧
+      ∀ q ∈ pts, r.bestE ≤ nd.bestE (memberRun nd fuel c0 q).st := by
+  have hlen := solveMembers_length nd fuel c0 at_ pts 0
+  have hne' : solveMembers nd fuel c0 at_ 0 pts ≠ [] := by
+    intro h; rw [h] at hlen; exact hne (List.length_eq_zero_iff.mp hlen.symm)
+  obtain ⟨r, hr, hmem, hle⟩ := update_best_min (solveMembers nd fuel c0 at_ 0 pts) hne'
+  obtain ⟨j, hj, hget⟩ := List.getElem_of_mem hmem
+  have hg := solveMembers_get nd fuel c0 at_ pts 0 j
+  rw [List.getElem?_eq_getElem hj, hget] at hg
+  cases hp : pts[j]? with
+  | none => rw [hp] at hg; simp at hg
+  | some p =>
+    rw [hp] at hg
+    simp only [Option.map_some, Option.some.injEq, Nat.zero_add] at hg
+    refine ⟨r, j, p, hr, hp, hg, ?_⟩
+    intro q hq
+    obtain ⟨i, hi, hqi⟩ := List.getElem_of_mem hq
+    have hg2 := solveMembers_get nd fuel c0 at_ pts 0 i
+    rw [List.getElem?_eq_getElem hi, hqi] at hg2
+    simp only [Option.map_some] at hg2
+    have := hle _ (List.mem_of_getElem? hg2)
+    simpa [memberOf] using this
+
+/-- **each member is subject to the ensemble's limits and termination, and its stop message is true**: a member
+that reports `EvaluationLimits` has really reached a limit with ITS OWN counters, one that reports a signal exit was
+asked to (C05 `solve_msg_truthful` for every member of the ensemble) -/
+theorem ensemble_member_stops_truthfully (nd : Nested P S X E) (fuel : Nat) (c0 : Ctl) (p : P) (m : Msg)
+    (h : (memberRun nd fuel c0 p).msg = some m) :
+    (m = .lim → (memberRun nd fuel c0 p).ctl.maxfun.reached (memberRun nd fuel c0 p).ctl.evals = true ∨
+                (memberRun nd fuel c0 p).ctl.maxiter.reached (memberRun nd fuel c0 p).ctl.gens = true) ∧
+    (m = .sig → (memberRun nd fuel c0 p).ctl.earlyExit = true) :=
+  Closed.solve_msg_truthful (nd.alg p) fuel c0 nd.init 0 0 m h
+
+/-! ### Nelder-Mead members (the ensembles' default nested solver): no hypothesis left -/
+section NMRuns
+variable {R : Type} [Add R] [Sub R] [Mul R] [Div R] [Neg R] [LinearOrder R] [BEq R] [OfNat R 0] [OfNat R 2]
+
+/-- **ensembles of Nelder-Mead solvers: `_total_evals` = number of calls of the user's cost**, for every objective
+(cost, penalty, constraints, ranges), coefficients, termination condition tree, limits, number of members and starting
+points: the total is the sum of the members' evaluation-log lengths and `_all_evals` lists them in member order. -/
+theorem nm_ensemble_total_is_cost_calls (o : Obj (Pt R) R) (coef : Coef R) (st clip0 mkVal : Pt R → Pt R)
+    (cond : Term.Cond R) (fuel : Nat) (c0 : Ctl) (at_ : Nat) (pts : List (Pt R)) (hc : c0.evals = 0) :
+    (ensembleSolve (nmNested o coef st clip0 mkVal cond) fuel c0 at_ pts).allEvals =
+      pts.map (fun p => (memberRun (nmNested o coef st clip0 mkVal cond) fuel c0 p).st.log.length) ∧
+    (ensembleSolve (nmNested o coef st clip0 mkVal cond) fuel c0 at_ pts).total =
+      (pts.map (fun p => (memberRun (nmNested o coef st clip0 mkVal cond) fuel c0 p).st.log.length)).sum :=
+  ensemble_total_is_cost_calls (nmNested o coef st clip0 mkVal cond) fuel c0 at_ pts (fun _ => nmFresh)
+    (fun _ => by intro _; rfl)
+    (fun p s k h => nmAlg_fresh o coef st clip0 mkVal cond p s k h)
+    (fun p s k h => nmAlg_mono o coef st clip0 mkVal cond p s k h) hc (fun _ => rfl)
+
+end NMRuns
+
+/-! ### from the configuration to the result -/
+section ChainThm
+variable {K : Type} [Field K] [LinearOrder K] [IsStrictOrderedRing K] [LE E] [DecidableLE E]
+
+/-- **a lattice ensemble has exactly `prod(nbins)` members and member `j` is the run started at the centre of grid cell
+`j`** (cells in lexicographic order): `LatticeSolver._InitialPoints` composed with the map of `_solve` -/
+theorem lattice_ensemble_members (nd : Nested (List K) S X E) (fuel : Nat) (c0 : Ctl) (at_ : Nat) (pf : Bool) (dim : Nat)
+    (lower upper : List K) (nbins : List Nat) (r : EnsOut X E)
+    (h : latticeEnsembleSolve nd fuel c0 at_ pf dim lower upper nbins = .ok r) (hpos : ∀ n ∈ nbins, 0 < n)
+    (hlen : nbins.length = dim) :
+    ∃ bins : List (List K), bins.length = dim ∧
+      (∀ k, k < dim → ∃ lo hi n, lower[k]? = some lo ∧ upper[k]? = some hi ∧ nbins[k]? = some n ∧
+        bins[k]? = some (latticeBin lo hi n)) ∧
+      r.members.length = nbins.prod ∧
+      ∀ j, r.members[j]? = (cartesianLex bins)[j]?.map fun p =>
+        memberOf nd (memberRun nd fuel c0 p).ctl (memberRun nd fuel c0 p).st (j + at_) := by
+  unfold latticeEnsembleSolve at h
+  cases hp : latticePoints pf dim lower upper nbins with
+  | error e => rw [hp] at h; cases h
+  | ok pts =>
+    rw [hp] at h
+    simp only [Except.ok.injEq] at h
+    obtain ⟨bins, hb1, hb2, hb3, _, hb5, _⟩ := lattice_points_spec pf dim lower upper nbins pts hp hpos hlen
+    have ho := ensemble_members_in_order nd fuel c0 at_ pts
+    rw [h] at ho
+    refine ⟨bins, hb1, hb2, by rw [ho.1, hb5], ?_⟩
+    intro j
+    rw [ho.2.1 j, hb3]
+
+end ChainThm
+
+/-! ### step-wise mode (`Step()` loops, `Solve(step=True)`) -/
+
+/-- **`_Step`'s bookkeeping of `_allSolvers`**: any number of ensemble Steps keeps the number of members and every
+member in its own slot with its own starting point (`__update_allSolvers` stores result `i` in slot `i`), and member
+`i` has had exactly `n` calls of its own `Step()` -/
+theorem ens_steps_keep_slots (nd : Nested P S X E) (n : Nat) (ms : List (P × MState S)) :
+    (ensSteps nd n ms).length = ms.length ∧ (ensSteps nd n ms).map Prod.fst = ms.map Prod.fst ∧
+    ∀ i : Nat, (ensSteps nd n ms)[i]? = ms[i]?.map fun (pm : P × MState S) => (pm.1, memberSteps (nd.alg pm.1) n pm.2) := by
+  rw [ensSteps_eq_map]
+  refine ⟨by simp, by simp [List.map_map, Function.comp_def], fun i => by simp⟩
+
+/-- **a finished member is not advanced again**: once a member's `Step()` has returned a message (solver other than
+Powell, non-empty step monitor), every later ensemble Step leaves its algorithm state, its iteration count, its
+counters (`evaluations`, `generations`, step records) and its message as they are -/
+theorem finished_member_not_advanced (a : Alg S) (m : MState S) (msg : Msg) (hp : m.ctl.powell = false)
+    (hmsg : (memberStep a m).msg = some msg) (hn : (memberStep a m).ctl.nstep ≠ 0) (j : Nat) :
+    (memberSteps a j (memberStep a m)).st = (memberStep a m).st ∧
+    (memberSteps a j (memberStep a m)).k = (memberStep a m).k ∧
+    (memberSteps a j (memberStep a m)).ctl.evals = (memberStep a m).ctl.evals ∧
+    (memberSteps a j (memberStep a m)).ctl.gens = (memberStep a m).ctl.gens ∧
+    (memberSteps a j (memberStep a m)).ctl.nstep = (memberStep a m).ctl.nstep ∧
+    (1 ≤ j → (memberSteps a j (memberStep a m)).msg = some msg) := by
+  have hs := stopped_after_message a m msg hp hmsg hn
+  obtain ⟨_, h2, h3, h4, h5⟩ := stopped_memberSteps a msg j (memberStep a m) hs
+  have e1 : (relive (memberSteps a j (memberStep a m)).ctl).evals = (relive (memberStep a m).ctl).evals := congrArg Ctl.evals h4
+  have e2 : (relive (memberSteps a j (memberStep a m)).ctl).gens = (relive (memberStep a m).ctl).gens := congrArg Ctl.gens h4
+  have e3 : (relive (memberSteps a j (memberStep a m)).ctl).nstep = (relive (memberStep a m).ctl).nstep := congrArg Ctl.nstep h4
+  exact ⟨h2, h3, e1, e2, e3, h5⟩
+
+/-- one member: `n` calls of `Step()` leave what `Solve()` leaves, once `n` covers the calls `Solve()` makes -/
+theorem member_steps_eq_run (a : Alg S) (c0 : Ctl) (s0 : S) (fuel n : Nat) (hp : c0.powell = false)
+    (hmsg : (solve a fuel c0 s0 0 0).msg.isSome = true) (hn : (solve a fuel c0 s0 0 0).ctl.nstep ≠ 0)
+    (hge : (solve a fuel c0 s0 0 0).steps ≤ n) :
+    (memberSteps a n { ctl := c0, st := s0, k := 0, msg := none }).st = (solve a fuel c0 s0 0 0).st ∧
+    (memberSteps a n { ctl := c0, st := s0, k := 0, msg := none }).ctl.evals = (solve a fuel c0 s0 0 0).ctl.evals ∧
+    (memberSteps a n { ctl := c0, st := s0, k := 0, msg := none }).ctl.gens = (solve a fuel c0 s0 0 0).ctl.gens ∧
+    (memberSteps a n { ctl := c0, st := s0, k := 0, msg := none }).msg = (solve a fuel c0 s0 0 0).msg := by
+  obtain ⟨j, hj1, _, h1, h2, h3, h4, _, m', h6, h7⟩ :=
+    solve_eq_memberSteps a fuel { ctl := c0, st := s0, k := 0, msg := none } 0 hmsg
+  simp only at h1 h2 h3 h4 h7
+  obtain ⟨msg, hmsg'⟩ := Option.isSome_iff_exists.mp hmsg
+  have hst : Stopped a (memberSteps a j { ctl := c0, st := s0, k := 0, msg := none }) msg := by
+    rw [h6]
+    apply stopped_after_message a m' msg (by rw [h7]; exact hp)
+    · rw [← h6, h4]; exact hmsg'
+    · rw [← h6, h2]; exact hn
+  have hnj : n = j + (n - j) := by omega
+  rw [hnj, memberSteps_add]
+  obtain ⟨_, i2, _, i4, i5⟩ := stopped_memberSteps a msg (n - j) _ hst
+  refine ⟨by rw [i2, h3], ?_, ?_, ?_⟩
+  · rw [← h2]
+    have e1 : (relive (memberSteps a (n - j) (memberSteps a j { ctl := c0, st := s0, k := 0, msg := none })).ctl).evals =
+        (relive (memberSteps a j { ctl := c0, st := s0, k := 0, msg := none }).ctl).evals := congrArg Ctl.evals i4
+    exact e1
+  · rw [← h2]
+    have e2 : (relive (memberSteps a (n - j) (memberSteps a j { ctl := c0, st := s0, k := 0, msg := none })).ctl).gens =
+        (relive (memberSteps a j { ctl := c0, st := s0, k := 0, msg := none }).ctl).gens := congrArg Ctl.gens i4
+    exact e2
+  · rcases Nat.eq_zero_or_pos (n - j) with hz | hz
+    · rw [hz]; simp only [memberSteps]; exact h4
+    · rw [i5 hz, hmsg']
+
+/-- **step-wise mode = run-to-completion mode** (deterministic members, every nested solver but Powell): `n` ensemble
+`Step()`s - each of which calls `Step()` on EVERY member, finished or not - leave exactly the members that one
+`Solve()` in run-to-completion mode leaves (result, counters, ids, in the same slots), as soon as `n` covers the
+slowest member; hence the same report: best member, `_all_*`, totals.  (Each member stops within `fuel` calls and has
+written a step record: both are facts about the member's own run, true of every real solver run that returns.) -/
+theorem step_mode_eq_solve [LE E] [DecidableLE E] (nd : Nested P S X E) (fuel : Nat) (c0 : Ctl) (at_ : Nat) (pts : List P)
+    (n : Nat) (hp : c0.powell = false)
+    (hmsg : ∀ p ∈ pts, (memberRun nd fuel c0 p).msg.isSome = true)
+    (hn : ∀ p ∈ pts, (memberRun nd fuel c0 p).ctl.nstep ≠ 0)
+    (hge : ∀ p ∈ pts, (memberRun nd fuel c0 p).steps ≤ n) :
+    viewMembers nd at_ 0 (ensSteps nd n (newMembers nd c0 pts)) = solveMembers nd fuel c0 at_ 0 pts ∧
+    report (viewMembers nd at_ 0 (ensSteps nd n (newMembers nd c0 pts))) = ensembleSolve nd fuel c0 at_ pts := by
+  have key : viewMembers nd at_ 0 (ensSteps nd n (newMembers nd c0 pts)) = solveMembers nd fuel c0 at_ 0 pts := by
+    rw [viewMembers_eq_map, solveMembers_eq_map, ensSteps_eq_map, newMembers, List.map_map, List.zipIdx_map, List.map_map]
+    apply List.map_congr_left
+    intro q hq
+    have hqm : q.1 ∈ pts := by
+      have := List.mem_zipIdx hq
+      have h2 := this.2.2
+      simp only [Nat.sub_zero] at h2
+      rw [h2]; exact List.getElem_mem _
+    obtain ⟨e1, e2, e3, _⟩ := member_steps_eq_run (nd.alg q.1) c0 nd.init fuel n hp (hmsg _ hqm) (hn _ hqm) (hge _ hqm)
+    simp only [Function.comp, Prod.map, id, memberOf, memberRun]
+    rw [e1, e2, e3]
+  exact ⟨key, by rw [key]; rfl⟩
+
+/-! non-vacuity: three countdown members (start value = energy, one unit per iteration, two cost calls per iteration,
+stop at 0 or after 3 generations); the ensemble reports the member that reaches 0, totals 19 calls; 4 ensemble Steps
+leave the same members as the run-to-completion solve, 2 Steps do not -/
+
+def toyNested : Nested Nat (Nat × Nat) Nat Nat :=
+  { alg := fun p => { step := fun s k => if k = 0 then (p, s.2 + 1) else (s.1 - 1, s.2 + 2), nlog := fun s => s.2,
+                      nrec := fun s => s.2, term := fun s _ => s.1 == 0 },
+    init := (0, 0), bestE := fun s => s.1, bestX := fun s => s.1 * 10 }
+
+def toyC0 : Ctl := { maxiter := .val 3, maxfun := .val 100 }
+
+example : (ensembleSolve toyNested 10 toyC0 0 [5, 2, 7]).members.map (fun m => (m.bestE, m.bestX, m.evals, m.gens, m.id))
+      = [(2, 20, 7, 3, 0), (0, 0, 5, 2, 1), (4, 40, 7, 3, 2)] ∧
+    (ensembleSolve toyNested 10 toyC0 0 [5, 2, 7]).best.map (fun m => (m.bestE, m.id)) = some (0, 1) ∧
+    (ensembleSolve toyNested 10 toyC0 0 [5, 2, 7]).total = 19 := by decide
+
+example : toyC0.powell = false ∧ (∀ p ∈ [5, 2, 7], (memberRun toyNested 10 toyC0 p).msg.isSome = true) ∧
+    (∀ p ∈ [5, 2, 7], (memberRun toyNested 10 toyC0 p).ctl.nstep ≠ 0) ∧
+    (∀ p ∈ [5, 2, 7], (memberRun toyNested 10 toyC0 p).steps ≤ 4) := by decide
+
+def toyView (ms : List (Member Nat Nat)) : List (Nat × Nat × Nat × Nat × Nat) :=
+  ms.map fun m => (m.bestE, m.bestX, m.evals, m.gens, m.id)
+
+example : toyView (viewMembers toyNested 0 0 (ensSteps toyNested 4 (newMembers toyNested toyC0 [5, 2, 7])))
+      = toyView (solveMembers toyNested 10 toyC0 0 0 [5, 2, 7]) ∧
+    toyView (viewMembers toyNested 0 0 (ensSteps toyNested 2 (newMembers toyNested toyC0 [5, 2, 7])))
+      ≠ toyView (solveMembers toyNested 10 toyC0 0 0 [5, 2, 7]) ∧
+    (ensSolveStep toyNested 10 (newMembers toyNested toyC0 [5, 2, 7]) 0).2 = 4 := by decide
+
+/-! ### `fillpts` / `SparsitySolver._InitialPoints`: count and range, whatever the optimisation runs return -/
+section FillThm
+variable {P : Type}
+
+theorem fillLoop_spec (opt : Nat → List P → P) : ∀ (n j : Nat) (pts : List P),
+    ∃ new, fillLoop opt n j pts = pts ++ new ∧ new.length = n ∧ ∀ x ∈ new, ∃ i ps, x = opt i ps := by
+  intro n
+  induction n with
+  | zero => intro j pts; exact ⟨[], by simp [fillLoop], rfl, by simp⟩
+  | succ n ih =>
+    intro j pts
+    obtain ⟨new, h1, h2, h3⟩ := ih (j + 1) (pts ++ [opt j pts])
+    refine ⟨opt j pts :: new, by simp [fillLoop, h1], by simp [h2], ?_⟩
+    intro x hx
+    rcases List.mem_cons.mp hx with rfl | hx
+    · exact ⟨j, pts, rfl⟩
+    · exact h3 x hx
+
+/-- **space-filling points: exactly `npts` points are returned, none of them a legacy data point, each one the result
+of one of the optimisation runs** - for every `npts` (0 included: the fixed F31), every legacy data list and whatever
+the runs return -/
+theorem fillpts_count (opt : Nat → List P → P) (npts : Nat) (data : List P) :
+    (fillpts opt npts data).length = npts ∧
+    (∃ new, fillLoop opt npts 0 data = data ++ new ∧ fillpts opt npts data = new) ∧
+    ∀ x ∈ fillpts opt npts data, ∃ i ps, x = opt i ps := by
+  obtain ⟨new, h1, h2, h3⟩ := fillLoop_spec opt npts 0 data
+  have e : fillpts opt npts data = new := by
+    unfold fillpts
+    rw [h1]
+    simp [h2]
+  exact ⟨by rw [e, h2], ⟨new, h1, e⟩, by rw [e]; exact h3⟩
+
+/-- **space-filling points stay within their ranges**: if every optimisation run returns a point of the box (C02 for
+the bounded differential-evolution run `diffev(holes, x0=bounds, bounds=bounds)`), every returned point lies in it -/
+theorem fillpts_in_range (opt : Nat → List P → P) (npts : Nat) (data : List P) (inBox : P → Prop)
+    (h : ∀ j ps, inBox (opt j ps)) : ∀ x ∈ fillpts opt npts data, inBox x := by
+  intro x hx
+  obtain ⟨i, ps, rfl⟩ := (fillpts_count opt npts data).2.2 x hx
+  exact h i ps
+
+theorem foldl_min_spec {R : Type} [LinearOrder R] : ∀ (ds : List R) (d : R),
+    (ds.foldl (fun m x => if x < m then x else m) d ∈ d :: ds) ∧
+    ∀ y ∈ d :: ds, ds.foldl (fun m x => if x < m then x else m) d ≤ y := by
+  intro ds
+  induction ds with
+  | nil => intro d; simp
+  | cons a as ih =>
+    intro d
+    simp only [List.foldl_cons]
+    obtain ⟨h1, h2⟩ := ih (if a < d then a else d)
+    constructor
+    · rcases List.mem_cons.mp h1 with h | h
+      · rw [h]; split <;> simp
+      · simp [h]
+    · intro y hy
+      have hm : (if a < d then a else d) ≤ a ∧ (if a < d then a else d) ≤ d := by
+        split
+        · exact ⟨le_refl _, le_of_lt ‹a < d›⟩
+        · exact ⟨not_lt.mp ‹¬a < d›, le_refl _⟩
+      rcases List.mem_cons.mp hy with rfl | hy
+      · exact le_trans (h2 _ (List.mem_cons_self ..)) hm.2
+      · rcases List.mem_cons.mp hy with rfl | hy
+        · exact le_trans (h2 _ (List.mem_cons_self ..)) hm.1
+        · exact h2 y (List.mem_cons_of_mem _ hy)
+
+/-- **the objective handed to the optimiser (`rtol=None`) is minus the distance to the NEAREST collected point**, so
+minimising it maximises that distance: a candidate scores at most another's iff it is at least as far from its nearest
+point -/
+theorem holes_none_maximises_distance {K : Type} [Field K] [LinearOrder K] [IsStrictOrderedRing K] (xs ys : List K)
+    (a b : K) (ha : holesNone xs = some a) (hb : holesNone ys = some b) :
+    (∃ r ∈ xs, a = -r ∧ ∀ d ∈ xs, r ≤ d) ∧ (∃ r ∈ ys, b = -r ∧ ∀ d ∈ ys, r ≤ d) ∧
+    (a ≤ b ↔ ∀ r ∈ xs, (∀ d ∈ xs, r ≤ d) → ∀ t ∈ ys, (∀ d ∈ ys, t ≤ d) → t ≤ r) := by
+  have key : ∀ (l : List K) (v : K), holesNone l = some v → ∃ r ∈ l, v = -r ∧ ∀ d ∈ l, r ≤ d := by
+    intro l v hv
+    cases l with
+    | nil => simp [holesNone, minOf] at hv
+    | cons d ds =>
+      simp only [holesNone, minOf, Option.map_some, Option.some.injEq] at hv
+      obtain ⟨h1, h2⟩ := foldl_min_spec ds d
+      exact ⟨_, h1, hv.symm, h2⟩
+  obtain ⟨r, hr, har, hrmin⟩ := key xs a ha
+  obtain ⟨t, ht, hbt, htmin⟩ := key ys b hb
+  refine ⟨⟨r, hr, har, hrmin⟩, ⟨t, ht, hbt, htmin⟩, ?_⟩
+  rw [har, hbt, neg_le_neg_iff]
+  constructor
+  · intro h r' hr' hr'min t' ht' ht'min
+    have e1 : r' = r := le_antisymm (hr'min r hr) (hrmin r' hr')
+    have e2 : t' = t := le_antisymm (ht'min t ht) (htmin t' ht')
+    rw [e1, e2]; exact h
+  · intro h; exact h r hr hrmin t ht htmin
+
+/-- the code as it is, `rtol` given (l.105-107 `-res if res < rtol else 0.0`): a candidate CLOSER than `rtol` to a
+collected point scores strictly LOWER (= better for the minimiser) than one that keeps the distance - the optimiser is
+drawn to points just inside the radius, although the docstring promises points "at least rtol away" (observed on the
+real code: distances 0.29999999.. for rtol = 0.3; not part of C09's statement, which claims count and range) -/
+theorem holes_tol_prefers_points_inside_the_radius :
+    holesTol (3 : Int) [2, 7] = some (-2) ∧ holesTol (3 : Int) [5, 7] = some 0 := by decide
+
+/-- non-vacuity: two legacy points, three runs returning 10, 11, 12 -/
+example : fillpts (fun j _ => 10 + j) 3 [1, 2] = [10, 11, 12] ∧ fillpts (fun j _ => 10 + j) 0 [1, 2] = [] := by decide
+
+end FillThm
+
+end Runs
 
 end MysticVerif.C09
